@@ -710,6 +710,22 @@ class Interp:
                     self.assign(t, Sym("%s[%d]" % (v.name, i), "any", None), env)
             else:
                 raise Unsupported("unpack of %r" % (v,))
+        elif isinstance(target, ast.Subscript) and isinstance(target.slice, ast.Slice):
+            base = self.eval(target.value, env)
+            lo = self.eval(target.slice.lower, env) if target.slice.lower else None
+            hi = self.eval(target.slice.upper, env) if target.slice.upper else None
+            if target.slice.step is not None or not all(x is None or (isinstance(x, int) and not isinstance(x, bool)) for x in (lo, hi)):
+                raise Unsupported("slice store with abstract bounds")
+            if isinstance(base, list) and isinstance(v, (list, tuple, StreamVal, HostIter)):
+                base[lo:hi] = list(v)         # in place: every alias of the list sees it
+                self.trace.events.append(("setitem", base, (lo, hi), v, target))
+            elif isinstance(base, (Opaque, Sym)):
+                if lo is None and hi is None and isinstance(v, (list, tuple)) and not v:
+                    self.trace.events.append(("delitem", base, (lo, hi), target))      # x[:] = [] empties it, like del x[:]
+                else:
+                    self.trace.events.append(("setitem", base, (lo, hi), v, target))
+            else:
+                raise Unsupported("slice store on %r" % (base,))
         elif isinstance(target, ast.Subscript):
             base = self.eval(target.value, env)
             key = self.eval(target.slice, env)
@@ -780,7 +796,24 @@ class Interp:
                 # one object per module-level name: identity tests (sentinels) are meaningful
                 key = (modname, node.id)
                 if key not in self._mod_objs:
-                    self._mod_objs[key] = Opaque(node.id, "obj")
+                    o_ = Opaque(node.id, "obj")
+                    tl = mod.toplevel[node.id]
+                    if isinstance(tl, ast.Assign) and isinstance(tl.value, (ast.Dict, ast.Tuple, ast.List, ast.Lambda)):
+                        # a module-level table the constant folder cannot represent (it holds lambdas / classes): evaluated here
+                        try:
+                            n_ev = len(self.trace.events)
+                            self._mod_objs[key] = self.eval(tl.value, {"__module__": modname})
+                            del self.trace.events[n_ev:]
+                            return self._mod_objs[key]
+                        except Unsupported:
+                            pass
+                    if isinstance(tl, ast.Assign) and isinstance(tl.value, ast.Call) and not tl.value.args and not tl.value.keywords:
+                        # NAME = PackageClass(): an instance, so that its methods dispatch
+                        d_ = self.proj.dotted(tl.value.func, mod, None)
+                        if d_ in self.proj.classes:
+                            o_ = Opaque(node.id, d_.split(".")[-1])
+                            o_.attrs["__module_object__"] = True
+                    self._mod_objs[key] = o_
                 return self._mod_objs[key]
         if node.id in ("str", "int", "list", "tuple", "dict", "set", "bytes", "float", "bool", "object"):
             return TypeVal(node.id)
@@ -828,8 +861,27 @@ class Interp:
                     f_ = f_.parent
                     c = f_.cls
                 if c is not None:
+                    # a method read as a value (handler tables, map(self.f, xs)): bound to the receiver
+                    m_ = (self._class_method(base.kind, node.attr) if base.kind != "obj" else None) or self.proj.method(c, node.attr)
+                    if m_ is not None and not any(isinstance(d, ast.Name) and d.id == "property" for d in m_.node.decorator_list):
+                        return BoundMethod(base, node.attr)
                     for k in self.proj.mro(c):
                         vals = [n.value for n in k.node.body if isinstance(n, ast.Assign) and any(isinstance(t, ast.Name) and t.id == node.attr for t in n.targets)]
+                        # A, B, C = <sequence>: the element at the name's position
+                        for n in k.node.body:
+                            if isinstance(n, ast.Assign) and len(n.targets) == 1 and isinstance(n.targets[0], (ast.Tuple, ast.List)):
+                                names_ = [t.id if isinstance(t, ast.Name) else None for t in n.targets[0].elts]
+                                if node.attr in names_:
+                                    seq_ = self.folder.try_fold(n.value, k.module.name, default=None)
+                                    if seq_ is None:
+                                        try:
+                                            seq_ = self.eval(n.value, {"__module__": k.module.name})
+                                        except Unsupported:
+                                            seq_ = None
+                                    if isinstance(seq_, range):
+                                        seq_ = list(seq_)
+                                    if isinstance(seq_, (list, tuple)) and len(seq_) == len(names_):
+                                        return seq_[names_.index(node.attr)]
                         if len(vals) == 1:
                             v = self.folder.try_fold(vals[0], k.module.name, default=None)
                             if v is not None:
@@ -1157,6 +1209,51 @@ class Interp:
             raise RaiseEx("TypeError", str(e), node)
         raise Unsupported("comparison %s" % type(op).__name__)
 
+    # ---- ordering of keys with symbolic parts: every comparison that the values decide is a fork (so an order that
+    # depends on attribute *values* shows up as paths that differ)
+    def _sym_eq(self, a, b, node):
+        if _concrete_key(a) and _concrete_key(b):
+            return a == b
+        if isinstance(a, (tuple, list)) and isinstance(b, (tuple, list)):
+            if len(a) != len(b):
+                return False
+            return all(self._sym_eq(x, y, node) for x, y in zip(a, b))
+        if a is b or (isinstance(a, Sym) and isinstance(b, Sym) and a.name == b.name):
+            return True
+        if isinstance(a, AStr) and isinstance(b, AStr) and a.render() == b.render():
+            return True
+        if not isinstance(a, (Sym, AStr, str)) or not isinstance(b, (Sym, AStr, str)):
+            raise Unsupported("ordering of %r and %r" % (a, b))
+        return self.decide(ACond("==", a, b, node), node)
+
+    def _sym_lt(self, a, b, node):
+        if _concrete_key(a) and _concrete_key(b):
+            try:
+                return a < b
+            except TypeError as e:
+                raise RaiseEx("TypeError", str(e), node)
+        if isinstance(a, (tuple, list)) and isinstance(b, (tuple, list)) and type(a) is type(b):
+            for x, y in zip(a, b):
+                if self._sym_eq(x, y, node):
+                    continue
+                return self._sym_lt(x, y, node)
+            return len(a) < len(b)
+        if not isinstance(a, (Sym, AStr, str)) or not isinstance(b, (Sym, AStr, str)):
+            raise Unsupported("ordering of %r and %r" % (a, b))
+        if self._sym_eq(a, b, node):
+            return False
+        return self.decide(ACond("<", a, b, node), node)
+
+    def _symbolic_order(self, keys, reverse, node):
+        """Stable order of the indices of `keys` (insertion sort on the forking comparison)."""
+        order = []
+        for i in range(len(keys)):
+            j = len(order)
+            while j > 0 and (self._sym_lt(keys[order[j - 1]], keys[i], node) if reverse else self._sym_lt(keys[i], keys[order[j - 1]], node)):
+                j -= 1
+            order.insert(j, i)
+        return order
+
     def _sym_lookup(self, table, key, node):
         """A symbolic string key looked up in a concrete table of string keys: one path per key it may equal, and one
         on which it equals none.  ("hit", value) / ("miss",); None when the key is not symbolic."""
@@ -1325,6 +1422,8 @@ class Interp:
             if isinstance(pos[0], (StreamVal, HostIter)):
                 return HostIter(_it.islice(pos[0], *pos[1:]), "islice(%s)" % pos[0].name)
             return list(_it.islice(pos[0], *pos[1:]))
+        if name == "itertools.chain.from_iterable" and len(pos) == 1 and isinstance(pos[0], (list, tuple)) and all(isinstance(x, (list, tuple)) for x in pos[0]):
+            return [y for x in pos[0] for y in x]
         if name == "collections.OrderedDict":
             return self.call_type("dict", pos, kw, node)
         if name == "collections.Counter" and not kw:
@@ -1708,12 +1807,15 @@ class Interp:
             items = list(pos[0])
             keyf = kw.get("key")
             keys = [self.call(keyf, [x], {}, node, env) for x in items] if keyf is not None else list(items)
-            if not all(isinstance(k, (int, float, str, tuple)) and not isinstance(k, bool) or isinstance(k, bool) for k in keys):
-                raise Unsupported("%s key is not concrete" % name)
+            if not all(_concrete_key(k) for k in keys):
+                if name != "sorted":
+                    raise Unsupported("%s key is not concrete" % name)
+                order = self._symbolic_order(keys, bool(kw.get("reverse", False)), node)
+                return [items[i] for i in order]
             try:
                 order = sorted(range(len(items)), key=lambda i: keys[i], reverse=bool(kw.get("reverse", False)))  # stable, like the builtin
-            except TypeError:
-                raise Unsupported("%s over incomparable keys" % name)
+            except TypeError as e:
+                raise RaiseEx("TypeError", str(e), node)       # concrete keys that Python cannot order
             if name == "sorted":
                 return [items[i] for i in order]
             if not items:
@@ -1866,6 +1968,11 @@ class Interp:
     def call_method(self, base, attr, pos, kw, node, env):
         if attr == "__getitem__" and len(pos) == 1 and not kw:
             return self._getitem(base, pos[0], node, env)
+        if isinstance(base, TypeVal) and base.name == "dict" and attr == "fromkeys" and pos and isinstance(pos[0], (list, tuple, StreamVal, HostIter)):
+            out = {}
+            for k_ in pos[0]:
+                out.setdefault(k_, pos[1] if len(pos) > 1 else None)
+            return out
         if isinstance(base, TypeVal) and base.name in ("str", "list", "dict", "tuple") and pos:
             # unbound method of a builtin type: str.strip(x) == x.strip()
             return self.call_method(pos[0], attr, pos[1:], kw, node, env)
@@ -2022,9 +2129,10 @@ class Interp:
                     base.sort(reverse=rev)
                 else:
                     keys = [self.call(keyf, [x], {}, node, env) for x in base]
-                    if not all(isinstance(k, (int, float, str)) for k in keys):
-                        raise Unsupported("sort key is not concrete")
-                    order = sorted(range(len(base)), key=lambda i: keys[i], reverse=rev)
+                    if not all(_concrete_key(k) for k in keys):
+                        order = self._symbolic_order(keys, rev, node)
+                    else:
+                        order = sorted(range(len(base)), key=lambda i: keys[i], reverse=rev)
                     base[:] = [base[i] for i in order]
                 return None
             raise Unsupported("list method %s" % attr)
@@ -2115,10 +2223,13 @@ class Interp:
                     return self.summaries[q_](self, [base] + list(pos), kw, node)
                 return self.call_func(m_, pos, kw, self_obj=base, node=node)
         if isinstance(base, (Opaque, Sym)):
-            if isinstance(base, Opaque) and base.name == "self" and base.kind == "obj":
+            if isinstance(base, Opaque) and base.name == "self":
                 func = env.get("__func__")
-                if func is not None and func.cls is not None:
-                    m = self.proj.method(func.cls, attr)
+                # the receiver's run-time class when the caller named one (template methods), else the defining class
+                m = self._class_method(base.kind, attr) if base.kind != "obj" else None
+                if m is not None or (func is not None and func.cls is not None and base.kind == "obj"):
+                    if m is None:
+                        m = self.proj.method(func.cls, attr)
                     if m is not None:
                         q = m.qual
                         if q in self.summaries:
@@ -2362,6 +2473,12 @@ _STR_METHODS = {"format", "join", "lower", "upper", "count", "replace", "split",
                 "lstrip", "startswith", "endswith", "encode", "decode", "partition", "rpartition", "find", "rfind", "index", "rindex"}
 
 _OPS = {ast.Eq: "==", ast.NotEq: "!=", ast.Lt: "<", ast.LtE: "<=", ast.Gt: ">", ast.GtE: ">="}
+
+
+def _concrete_key(k):
+    if isinstance(k, (tuple, list)):
+        return all(_concrete_key(x) for x in k)
+    return isinstance(k, (int, float, str, bool)) or k is None
 
 
 def _load(target):
